@@ -3,8 +3,8 @@ import UtilModel.Lemmas.SizeLimit
 /-!
 # The JSON object reader of package `size`: decoder-state invariants, totality, form gating
 -/
-namespace U.Size
-open U U.GoJson
+namespace U.SizeObject
+open U U.GoJson U.JsonTokens U.Size
 
 /-- the depth counter of `decodeAndSkipNested` after a token -/
 def depthAfter (t : Tok) (depth : Nat) : Int :=
@@ -343,4 +343,357 @@ theorem parse_ne_panic (maxLen mk : Nat) (r : Rule) (s : Bytes) : parse maxLen m
     · exact unmarshalText_ne_panic _ _
 
 
-end U.Size
+
+/-! ## form gating -/
+
+theorem parse_text_mode (maxLen mk : Nat) (r : Rule) (s : Bytes)
+    (h1 : r.jsonString = false) (h2 : r.jsonObject = false) :
+    parse maxLen mk r s =
+      if maxLen ≠ 0 ∧ s.length > maxLen then .err .tooLong else unmarshalText r.disableUnit s := by
+  unfold parse
+  simp [h1, h2]
+
+theorem parse_json_mode (maxLen mk : Nat) (r : Rule) (s : Bytes)
+    (h : r.jsonString = true ∨ r.jsonObject = true) :
+    parse maxLen mk r s =
+      if maxLen ≠ 0 ∧ s.length > maxLen then .err .tooLong else unmarshalJSON mk r s := by
+  unfold parse
+  have : (r.jsonString || r.jsonObject) = true := by rcases h with h | h <;> simp [h]
+  simp [this]
+
+theorem unmarshalJSON_token_error {mk : Nat} {r : Rule} {s : Bytes} {e : JErr}
+    (ht : (Dec.init s).token = .error e) : unmarshalJSON mk r s = .err (jerr e) := by
+  unfold unmarshalJSON; rw [ht]
+
+theorem unmarshalJSON_not_object {mk : Nat} {r : Rule} {s : Bytes} {c : Nat} {d : Dec}
+    (ht : (Dec.init s).token = .ok (.delim c, d)) (hc : c ≠ 123) :
+    unmarshalJSON mk r s = .err .expectedObject := by
+  unfold unmarshalJSON; rw [ht]; simp [hc]
+
+theorem unmarshalJSON_object_disabled {mk : Nat} {r : Rule} {s : Bytes} {d : Dec}
+    (ht : (Dec.init s).token = .ok (.delim 123, d)) (hr : r.jsonObject = false) :
+    unmarshalJSON mk r s = .err .objectDisabled := by
+  unfold unmarshalJSON; rw [ht]; simp [hr]
+
+theorem unmarshalJSON_string_disabled {mk : Nat} {r : Rule} {s t : Bytes} {d : Dec}
+    (ht : (Dec.init s).token = .ok (.str t, d)) (hr : r.jsonString = false) :
+    unmarshalJSON mk r s = .err .stringDisabled := by
+  unfold unmarshalJSON; rw [ht]; simp [hr]
+
+theorem unmarshalJSON_bool {mk : Nat} {r : Rule} {s : Bytes} {b : Bool} {d : Dec}
+    (ht : (Dec.init s).token = .ok (.bool b, d)) : unmarshalJSON mk r s = .err .invalidType := by
+  unfold unmarshalJSON; rw [ht]
+
+theorem unmarshalJSON_null {mk : Nat} {r : Rule} {s : Bytes} {d : Dec}
+    (ht : (Dec.init s).token = .ok (.null, d)) : unmarshalJSON mk r s = .err .invalidType := by
+  unfold unmarshalJSON; rw [ht]
+
+theorem unmarshalJSON_number {mk : Nat} {r : Rule} {s lit : Bytes} {d : Dec}
+    (ht : (Dec.init s).token = .ok (.num lit, d)) :
+    unmarshalJSON mk r s = (expectEOF d).bind fun _ => unmarshalText false lit := by
+  unfold unmarshalJSON; rw [ht]
+
+theorem unmarshalJSON_string {mk : Nat} {r : Rule} {s t : Bytes} {d : Dec}
+    (ht : (Dec.init s).token = .ok (.str t, d)) (hr : r.jsonString = true) :
+    unmarshalJSON mk r s = (expectEOF d).bind fun _ => unmarshalText false t := by
+  unfold unmarshalJSON; rw [ht]; simp [hr]
+
+theorem unmarshalJSON_object {mk : Nat} {r : Rule} {s : Bytes} {d : Dec}
+    (ht : (Dec.init s).token = .ok (.delim 123, d)) (hr : r.jsonObject = true) :
+    unmarshalJSON mk r s =
+      match objectLoop mk r.disallowUnknown (s.length + 2) 0 d none none with
+      | .err e => .err e
+      | .panic => .panic
+      | .ok (size, d1) =>
+        match d1.token with
+        | .error .eof => .err .unexpectedData
+        | .error e => .err (jerr e)
+        | .ok (.delim 125, d2) => (expectEOF d2).map fun _ => size
+        | .ok _ => .err .unexpectedData := by
+  unfold unmarshalJSON; rw [ht]; simp only [bne_self_eq_false, Bool.false_eq_true, if_false, hr, Bool.not_true]; rfl
+
+/-! ## end of input -/
+
+/-- `expectEOF` at the top level: success exactly when only white space is left; otherwise the error
+is `unexpectedData` (another token follows) or the tokenizer's own error -/
+theorem expectEOF_ok_iff {d : Dec} (hst : d.st = .topValue) :
+    expectEOF d = .ok () ↔ allSpace d.rest = true := by
+  obtain ⟨rest, st, S⟩ := d
+  simp only at hst; subst hst
+  rw [← token_topValue_eof (S := S)]
+  unfold expectEOF
+  split
+  · rename_i h; simp [h]
+  · rename_i e hne h
+    simp only [reduceCtorEq, false_iff, h, Except.error.injEq]
+    intro he; exact hne he
+  · rename_i h; simp [h]
+
+theorem expectEOF_cases (d : Dec) :
+    expectEOF d = .ok () ∨ expectEOF d = .err .unexpectedData ∨
+      ∃ e, d.token = .error e ∧ e ≠ .eof ∧ expectEOF d = .err (jerr e) := by
+  unfold expectEOF
+  split
+  · exact .inl rfl
+  · rename_i e hne h
+    exact .inr (.inr ⟨e, h, fun he => hne he, rfl⟩)
+  · exact .inr (.inl rfl)
+
+/-- the decoder after the first token of a scalar top-level value -/
+theorem first_scalar_state {s : Bytes} {tok : Tok} {d : Dec} (ht : (Dec.init s).token = .ok (tok, d))
+    (hs : ∀ c, tok ≠ .delim c) : d.st = .topValue ∧ d.stack = [] := by
+  rcases token_top (d := Dec.init s) rfl ht with ⟨h0, _⟩ | ⟨h0, _⟩ | ⟨_, h1, h2⟩
+  · exact (hs _ h0).elim
+  · exact (hs _ h0).elim
+  · exact ⟨h1, h2⟩
+
+theorem first_object_state {s : Bytes} {d : Dec} (ht : (Dec.init s).token = .ok (.delim 123, d)) :
+    d.st = .objectStart ∧ d.stack = [.topValue] := by
+  rcases token_top (d := Dec.init s) rfl ht with ⟨h0, _⟩ | ⟨_, h1, h2⟩ | ⟨h0, _⟩
+  · simp at h0
+  · exact ⟨h1, h2⟩
+  · exact (h0 _ rfl).elim
+
+/-- 4: a leading number literal is read by the text rules when nothing but white space follows … -/
+theorem number_form {mk : Nat} {r : Rule} {s lit : Bytes} {d : Dec}
+    (ht : (Dec.init s).token = .ok (.num lit, d)) :
+    (allSpace d.rest = true → unmarshalJSON mk r s = unmarshalText false lit) ∧
+    (allSpace d.rest = false → unmarshalJSON mk r s = .err .unexpectedData ∨
+        ∃ e, d.token = .error e ∧ e ≠ .eof ∧ unmarshalJSON mk r s = .err (jerr e)) := by
+  rw [unmarshalJSON_number ht]
+  have hst := (first_scalar_state ht (by simp)).1
+  constructor
+  · intro h
+    rw [(expectEOF_ok_iff hst).mpr h]; rfl
+  · intro h
+    rcases expectEOF_cases d with h1 | h1 | ⟨e, he, hne, h1⟩
+    · rw [(expectEOF_ok_iff hst).mp h1] at h; simp at h
+    · left; rw [h1]; rfl
+    · right; exact ⟨e, he, hne, by rw [h1]; rfl⟩
+
+theorem string_form {mk : Nat} {r : Rule} {s t : Bytes} {d : Dec}
+    (ht : (Dec.init s).token = .ok (.str t, d)) (hr : r.jsonString = true) :
+    (allSpace d.rest = true → unmarshalJSON mk r s = unmarshalText false t) ∧
+    (allSpace d.rest = false → unmarshalJSON mk r s = .err .unexpectedData ∨
+        ∃ e, d.token = .error e ∧ e ≠ .eof ∧ unmarshalJSON mk r s = .err (jerr e)) := by
+  rw [unmarshalJSON_string ht hr]
+  have hst := (first_scalar_state ht (by simp)).1
+  constructor
+  · intro h
+    rw [(expectEOF_ok_iff hst).mpr h]; rfl
+  · intro h
+    rcases expectEOF_cases d with h1 | h1 | ⟨e, he, hne, h1⟩
+    · rw [(expectEOF_ok_iff hst).mp h1] at h; simp at h
+    · left; rw [h1]; rfl
+    · right; exact ⟨e, he, hne, by rw [h1]; rfl⟩
+
+
+/-! ## the decoder only moves forward -/
+
+theorem decodeValue_suffix {d d' : Dec} {v : Nat} (h : decodeValue d = .ok (v, d')) : d'.rest <:+ d.rest := by
+  unfold decodeValue at h
+  split at h
+  · simp at h
+  · rename_i lit d1 ht
+    unfold Outcome.map at h
+    split at h
+    · simp only [Outcome.ok.injEq, Prod.mk.injEq] at h
+      obtain ⟨_, rfl⟩ := h
+      exact (token_shorter ht).1
+    · simp at h
+    · simp at h
+  · simp at h
+
+theorem decodeUnit_suffix {d d' : Dec} {u : Bytes} (h : decodeUnit d = .ok (u, d')) : d'.rest <:+ d.rest := by
+  unfold decodeUnit at h
+  split at h
+  · simp at h
+  · rename_i s d1 ht
+    simp only [Outcome.ok.injEq, Prod.mk.injEq] at h
+    obtain ⟨_, rfl⟩ := h
+    exact (token_shorter ht).1
+  · simp at h
+
+theorem skipLoop_suffix {f depth : Nat} {d d' : Dec} (h : skipLoop f depth d = .ok d') : d'.rest <:+ d.rest := by
+  induction f generalizing depth d with
+  | zero => simp [skipLoop] at h
+  | succ f ih =>
+    rw [skipLoop_succ] at h
+    split at h
+    · simp at h
+    · rename_i t d1 ht
+      have h1 := (token_shorter ht).1
+      split at h
+      · simp only [Outcome.ok.injEq] at h; subst h; exact h1
+      · exact (ih h).trans h1
+
+theorem decodeAndSkipNested_suffix {d d' : Dec} (h : decodeAndSkipNested d = .ok d') : d'.rest <:+ d.rest := by
+  unfold decodeAndSkipNested at h
+  split at h
+  · simp at h
+  · rename_i c d1 ht
+    exact (skipLoop_suffix h).trans (token_shorter ht).1
+  · rename_i t d1 hnd ht
+    simp only [Outcome.ok.injEq] at h
+    subst h
+    exact (token_shorter ht).1
+
+theorem objectLoop_suffix {mk : Nat} {du : Bool} {f i : Nat} {d : Dec} {v : Option Nat} {u : Option Bytes}
+    {z : Nat} {d1 : Dec} (h : objectLoop mk du f i d v u = .ok (z, d1)) : d1.rest <:+ d.rest := by
+  induction f generalizing i d v u with
+  | zero => simp [objectLoop] at h
+  | succ f ih =>
+    simp only [objectLoop] at h
+    split at h
+    · simp at h
+    · split at h
+      · unfold Outcome.map at h
+        split at h
+        · simp only [Outcome.ok.injEq, Prod.mk.injEq] at h
+          obtain ⟨_, rfl⟩ := h
+          exact List.suffix_refl _
+        · simp at h
+        · simp at h
+      · split at h
+        · simp at h
+        · rename_i key d0 ht
+          have hk := (token_shorter ht).1
+          split at h
+          · split at h
+            · simp at h
+            · split at h
+              · rename_i hv
+                exact ((ih h).trans (decodeValue_suffix hv)).trans hk
+              · simp at h
+              · simp at h
+          · split at h
+            · split at h
+              · simp at h
+              · split at h
+                · rename_i hv
+                  exact ((ih h).trans (decodeUnit_suffix hv)).trans hk
+                · simp at h
+                · simp at h
+            · split at h
+              · simp at h
+              · split at h
+                · rename_i hv
+                  exact ((ih h).trans (decodeAndSkipNested_suffix hv)).trans hk
+                · simp at h
+                · simp at h
+        · simp at h
+
+/-! ## exactly one value -/
+
+/-- the input left in the decoder after `unmarshalJSON` has read the value and, for an object, its
+closing brace; `none` if the value is not read to its end -/
+def restAfterValue (mk : Nat) (r : Rule) (s : Bytes) : Option Bytes :=
+  match (Dec.init s).token with
+  | .error _ => none
+  | .ok (.delim c, d) =>
+    if c != 123 then none
+    else match objectLoop mk r.disallowUnknown (s.length + 2) 0 d none none with
+      | .ok (_, d1) =>
+        match d1.token with
+        | .ok (.delim 125, d2) => some d2.rest
+        | _ => none
+      | _ => none
+  | .ok (_, d) => some d.rest
+
+/-- 5: acceptance means the whole input was consumed: the value was read to its end (an object up to
+and including its `}`), what is left is a proper suffix of the input, and it is only white space -/
+theorem unmarshalJSON_consumed {mk : Nat} {r : Rule} {s : Bytes} {z : Nat}
+    (h : unmarshalJSON mk r s = .ok z) :
+    ∃ rest, restAfterValue mk r s = some rest ∧ allSpace rest = true ∧ rest <:+ s ∧ rest.length < s.length := by
+  unfold unmarshalJSON at h
+  unfold restAfterValue
+  split at h
+  · simp at h
+  · rename_i c d ht
+    rw [ht]
+    simp only
+    split at h
+    · simp at h
+    · rename_i hc
+      rw [if_neg hc]
+      simp only [bne_iff_ne, ne_eq, Decidable.not_not] at hc
+      subst hc
+      split at h
+      · simp at h
+      · have hd := first_object_state ht
+        split at h
+        · simp at h
+        · simp at h
+        · rename_i size d1 hl
+          rw [hl]
+          simp only
+          have hf := objectLoop_final (.inl hd.1) hl
+          split at h
+          · simp at h
+          · simp at h
+          · rename_i d2 ht2
+            rw [ht2]
+            simp only
+            have hst2 : d2.st = .topValue := by
+              rcases token_stackStep ht2 with ⟨c, x, h0, hc, _⟩ | ⟨c, p, _, _, hp, hst⟩ | ⟨h0, _⟩
+              · simp only [Tok.delim.injEq] at h0; subst h0; omega
+              · rw [hf.2.1, hd.2] at hp
+                simp only [List.cons.injEq] at hp
+                rw [hst, ← hp.1]; rfl
+              · exact (h0 _ rfl).elim
+            have he : expectEOF d2 = .ok () := by
+              unfold Outcome.map at h
+              split at h
+              · rename_i a ha; cases a; exact ha
+              · simp at h
+              · simp at h
+            refine ⟨_, rfl, (expectEOF_ok_iff hst2).mp he, ?_, ?_⟩
+            · exact ((token_shorter ht2).1.trans (objectLoop_suffix hl)).trans (token_shorter ht).1
+            · have h1 := (token_shorter ht2).2
+              have h2 := (objectLoop_suffix hl).length_le
+              have h3 := (token_shorter ht).2
+              simp only [Dec.init] at h3
+              omega
+          · simp at h
+  · rename_i lit d ht
+    rw [ht]
+    simp only
+    have hst := (first_scalar_state ht (by simp)).1
+    have he : expectEOF d = .ok () := by
+      unfold Outcome.bind at h
+      split at h
+      · rename_i a ha; cases a; exact ha
+      · simp at h
+      · simp at h
+    exact ⟨_, rfl, (expectEOF_ok_iff hst).mp he, (token_shorter ht).1, (token_shorter ht).2⟩
+  · rename_i t d ht
+    rw [ht]
+    simp only
+    have hst := (first_scalar_state ht (by simp)).1
+    split at h
+    · simp at h
+    · have he : expectEOF d = .ok () := by
+        unfold Outcome.bind at h
+        split at h
+        · rename_i a ha; cases a; exact ha
+        · simp at h
+        · simp at h
+      exact ⟨_, rfl, (expectEOF_ok_iff hst).mp he, (token_shorter ht).1, (token_shorter ht).2⟩
+  · simp at h
+
+
+/-- … and trailing data after a complete value is always rejected -/
+theorem unmarshalJSON_trailing {mk : Nat} {r : Rule} {s rest : Bytes}
+    (hr : restAfterValue mk r s = some rest) (hs : allSpace rest = false) :
+    ∃ e, unmarshalJSON mk r s = .err e := by
+  cases h : unmarshalJSON mk r s with
+  | ok z =>
+    obtain ⟨rest', h1, h2, _⟩ := unmarshalJSON_consumed h
+    rw [hr] at h1
+    simp only [Option.some.injEq] at h1
+    subst h1
+    rw [h2] at hs; simp at hs
+  | err e => exact ⟨e, rfl⟩
+  | panic => exact (unmarshalJSON_ne_panic _ _ _ h).elim
+
+end U.SizeObject
